@@ -290,6 +290,50 @@ fn describe_front(threads: &[Vec<Op>], idx: &[u32], cur: u64) -> String {
     s
 }
 
+/// Histories with *open* operations (the call unwound with a panic, so it may or may not have taken
+/// effect): an open operation has `ret == ANY` and `resp == u64::MAX`. Every subset of the open
+/// operations is tried as "took effect"; the history is accepted if one subset linearizes.
+pub fn check_open(threads: &[Vec<Op>], init: u64, fin: Option<u64>, addr_of: &HashMap<u64, u64>, budget: usize) -> Verdict {
+    let open: Vec<(usize, usize)> = threads
+        .iter()
+        .enumerate()
+        .flat_map(|(t, th)| th.iter().enumerate().filter(|(_, o)| o.ret == ANY && o.resp == u64::MAX).map(move |(i, _)| (t, i)))
+        .collect();
+    if open.is_empty() {
+        return check(threads, init, fin, addr_of, budget);
+    }
+    if open.len() > 4 {
+        return Verdict::Inconclusive(format!("{} open operations: too many subsets", open.len()));
+    }
+    let mut worst: Option<Verdict> = None;
+    for mask in 0..(1u32 << open.len()) {
+        let variant: Vec<Vec<Op>> = threads
+            .iter()
+            .enumerate()
+            .map(|(t, th)| {
+                th.iter()
+                    .enumerate()
+                    .filter(|(i, _)| match open.iter().position(|x| *x == (t, *i)) {
+                        Some(k) => mask & (1 << k) != 0,
+                        None => true,
+                    })
+                    .map(|(_, o)| *o)
+                    .collect()
+            })
+            .collect();
+        match check(&variant, init, fin, addr_of, budget) {
+            Verdict::Ok => return Verdict::Ok,
+            v @ Verdict::Inconclusive(_) => worst = Some(v),
+            v @ Verdict::Violation(_) => {
+                if worst.is_none() {
+                    worst = Some(v)
+                }
+            }
+        }
+    }
+    worst.unwrap()
+}
+
 /// Chain oracle (C04): with unique written values, every successful exchange (swap / successful
 /// compare-and-swap) yields an immediate-predecessor edge `old -> new`. Edges must form
 /// vertex-disjoint chains: a value is handed back at most once and succeeded at most once.
